@@ -65,7 +65,18 @@ func New(src Source) *Rand { return rand.New(src) }
 
 // NewSource returns a simulated source.
 func NewSource(seed int64) Source {
-	return &SimSource{codeSeed: seed}
+	return &SimSource{codeSeed: reduceSeed(seed)}
+}
+
+// reduceSeed mirrors what math/rand documents about seeding: "seed values that have the same
+// remainder when divided by 2^31-1 generate the same pseudo-random sequence".
+func reduceSeed(seed int64) int64 {
+	const m = 1<<31 - 1
+	seed %= m
+	if seed < 0 {
+		seed += m
+	}
+	return seed
 }
 
 // NewZipf is rand.NewZipf.
@@ -115,7 +126,7 @@ func (s *SimSource) access(reseed bool, seed int64) uint64 {
 	if sim == nil || sim.Aborted() {
 		// outside a run: plain deterministic stream
 		if reseed {
-			s.codeSeed = seed
+			s.codeSeed = reduceSeed(seed)
 			s.plainIdx = 0
 			return 0
 		}
@@ -144,7 +155,7 @@ func (s *SimSource) access(reseed bool, seed int64) uint64 {
 		return 0
 	}
 	if reseed {
-		s.codeSeed = seed
+		s.codeSeed = reduceSeed(seed)
 		s.idx = 0
 	} else {
 		s.idx = k + 1 // write
